@@ -92,6 +92,13 @@ def lay1(ctx, c):
             c.check(init_ok, "translate_statements:address-init", "starts at 0", "initialisation %s" % (U(init) if init is not None else None),
                     "the running address must start at 0 immediately before the pass", repo.loc(fn, st))
     sa = repo.method("Statement", "set_address")
+    guards_sa = [n for n in ast.walk(sa.node) if isinstance(n, ast.If)]
+    for gnode in guards_sa:
+        t_ = gnode.test
+        inner = t_.operand if isinstance(t_, ast.UnaryOp) and isinstance(t_.op, ast.Not) else t_
+        if isinstance(inner, ast.Attribute) and inner.attr == "int" or (isinstance(inner, ast.Compare) and U(inner.left).endswith(".int") and try_fold(inner.comparators[0]) == 0):
+            c.finding("Statement.set_address:preset-test", "preset address recognised by the truthiness of its value (%s)" % U(t_),
+                      "Statement.set_address decides whether an address was already set (ORG) by `%s`: an ORG at $0000 is a preset address too, but is taken for 'not set'" % U(t_), repo.loc(sa, gnode))
     txt = U(sa.node)
     good = re.search(r"if not self\.code_pkg\.address\.is_none\(\):\s+return self\.code_pkg\.address\.int", txt) and \
         re.search(r"self\.code_pkg\.address = NumericValue\(address\)\s+return self\.code_pkg\.address\.int", txt)
@@ -119,6 +126,35 @@ def lay1(ctx, c):
                       "while the listing shows the first byte at $0000", repo.loc(fn, st))
         else:
             c.ok("translate_statements:origin", "origin conflicts are rejected", repo.loc(fn, st))
+
+
+def lay0(ctx, c):
+    """LAY-0 Program.parse keeps every statement of its input, in order."""
+    repo = ctx.repo
+    fn = repo.method("Program", "parse")
+    where = repo.loc(fn, fn.node)
+    params = [p for p in fn.params if p not in ("self", "cls")]
+    loops = [n for n in body_without_doc(fn.node) if isinstance(n, ast.For)]
+    if len(loops) != 1:
+        c.undecided("Program.parse", "loop-not-found", "", where)
+        return
+    lp = loops[0]
+    c.check(U(lp.iter) == params[0], "Program.parse:iteration", "iterates every line it was given", "iterates %s" % U(lp.iter), "Program.parse iterates %s" % U(lp.iter), repo.loc(fn, lp))
+    exits = [n for n in ast.walk(lp) if isinstance(n, (ast.Break, ast.Return))]
+    c.check(not exits, "Program.parse:complete", "no early exit from the line loop", "the loop can stop early (%s at line %d)" % (type(exits[0]).__name__ if exits else "", exits[0].lineno if exits else 0),
+            "Program.parse can stop before the end of its input: statements after that point are dropped although they belong to the program (parse is applied per file, so an included file is cut differently from the spliced text)",
+            repo.loc(fn, exits[0] if exits else lp))
+    appends = [n for n in ast.walk(lp) if isinstance(n, ast.Call) and isinstance(n.func, ast.Attribute) and n.func.attr == "append"]
+    conds = [U(n.test) for n in ast.walk(lp) if isinstance(n, ast.If)]
+    good = len(appends) == 1 and all(re.fullmatch(r"not \w+\.is_empty and (not )?\w+\.is_comment_only|not \w+\.is_empty and not \w+\.is_comment_only", t) for t in conds)
+    if good:
+        c.ok("Program.parse:filter", "keeps every statement that is neither empty nor a comment", repo.loc(fn, lp))
+    else:
+        c.undecided("Program.parse:filter", "filter-shape-unknown", str(conds), repo.loc(fn, lp))
+    ctor = [n for n in ast.walk(lp) if isinstance(n, ast.Call) and U(n.func) == "Statement"]
+    c.check(len(ctor) == 1 and [U(a) for a in ctor[0].args] == [U(lp.target)], "Program.parse:statement", "Statement(line) for the line itself", "constructs %s" % [U(x) for x in ctor],
+            "Program.parse does not build each Statement from the line as given", repo.loc(fn, lp))
+    # no write-back into the caller's list is DET-4's business
 
 
 def lay3(ctx, c):
@@ -428,7 +464,13 @@ def inc1(ctx, c):
     # get_include_filename returns the operand text
     gi = repo.method("Statement", "get_include_filename")
     good = re.search(r"return self\.operand\.operand_string if self\.instruction\.is_include else None", U(gi.node)) is not None
-    if good:
+    altered = [U(n) for n in ast.walk(gi.node) if isinstance(n, ast.Call) and isinstance(n.func, ast.Attribute) and "operand_string" in U(n.func.value)
+               and n.func.attr not in ("strip",) ]
+    altered += [U(n) for n in ast.walk(gi.node) if isinstance(n, ast.Call) and U(n.func) in ("os.path.basename", "os.path.normpath", "os.path.abspath", "os.path.join", "os.path.expanduser")]
+    if altered:
+        c.finding("Statement.get_include_filename", "the operand is transformed before use: %s" % altered[0][:50],
+                  "get_include_filename returns %s instead of the operand as written: paths such as ../x or .x no longer name the file the source names" % altered[0], repo.loc(gi, gi.node))
+    elif good:
         c.ok("Statement.get_include_filename", "operand text of an INCLUDE statement, else None", repo.loc(gi, gi.node))
     else:
         c.undecided("Statement.get_include_filename", "shape-unknown", "", repo.loc(gi, gi.node))
@@ -473,6 +515,15 @@ def txt1(ctx, c):
             bad.append((line, got))
     c.check(not bad, "ASM_LINE_REGEX", "splits label / mnemonic / operands for any amount of white space", "mis-splits %s" % bad[:2],
             "the line pattern splits %r into %r" % (bad[0] if bad else ("", "")), "%s:%d" % (mod.rel, node.lineno))
+    # every character of the operand alphabet (README grammar) is kept inside the operands field
+    REF_OPERAND_CHARS = "AZaz09_@[]><'\":,.#?$%^&*()=!+-/"
+    lost = []
+    for ch in REF_OPERAND_CHARS:
+        m = rx.match("L LDA X" + ch + "Y\n")
+        if not m or m.group("operands") != "X" + ch + "Y":
+            lost.append(ch)
+    c.check(not lost, "ASM_LINE_REGEX:operand-alphabet", "every operand character stays in the operands field", "characters %s end the operands field" % lost,
+            "the line pattern ends the operands field at %s: an operand or FCC string containing it is split into operand and comment" % lost, "%s:%d" % (mod.rel, node.lineno))
     # comment flows only into self.comment (non-FCC)
     uses = [n for n in ast.walk(pl.node) if isinstance(n, ast.Call) and U(n.func) == "data.group" and n.args and try_fold(n.args[0]) == "comment"]
     c.floor("comment group uses", len(uses), 2)
@@ -500,4 +551,4 @@ def txt1(ctx, c):
             c.ok("charset:symbol-vs-expression", "every symbol can be an expression term", vmod.rel)
 
 
-RULES = {"LAY-1": lay1, "LAY-3": lay3, "EXP-1": exp1, "DIR-1": dir1, "INC-1": inc1, "TXT-1": txt1}
+RULES = {"LAY-0": lay0, "LAY-1": lay1, "LAY-3": lay3, "EXP-1": exp1, "DIR-1": dir1, "INC-1": inc1, "TXT-1": txt1}
